@@ -141,8 +141,27 @@ fn message_fields(request: bool) -> Vec<qpack::Field> {
     f
 }
 
+/// a HEADERS frame whose field section has very many (tiny, valid) field lines: the message head followed by
+/// `n` one-byte static-table lines ("age: 0"); counts around the limits of the header map h3 builds
+fn many_lines_frame(request: bool) -> Vec<u8> {
+    let head = if request { request_fields("GET", "/many") } else { response_fields(200) };
+    let mut p = qpack::encode_plain(&head);
+    let n = *pick(&[24_577usize, 3_000, 24_576, 32_768, 32_769, 50_000]);
+    p.extend(std::iter::repeat(0xc0 | 2).take(n));
+    obs::count("probe.field_section_with_very_many_lines");
+    frames::frame(frames::HEADERS, &p)
+}
+
 fn gen_message_stream(request: bool) -> Vec<u8> {
     let mut b = vec![];
+    if draw(200) == 199 {
+        // rare (the frame is tens of kilobytes): nothing but the many-lines message
+        b.extend(many_lines_frame(request));
+        if draw(2) == 1 {
+            b.extend(frames::frame(frames::DATA, b"x"));
+        }
+        return b;
+    }
     let n = 1 + draw_usize(5);
     for i in 0..n {
         let class = if i == 0 { draw(6) } else { 1 + draw(9) };
@@ -528,7 +547,7 @@ impl Check for C06 {
     fn meta(&self) -> Meta {
         Meta {
             level: "fault_enumeration",
-            rule: "adversarial peer scripts (1-5 unidirectional streams of every type and 1-3 request/response streams built from valid traffic plus grammar mutations - length fields off by +-1/+-k/huge, non-minimal and truncated varints, swapped types, QPACK-level mutations: dynamic references, out-of-range indices, truncated and over-long integers, bad Huffman padding, malformed messages - and byte mutations; steps of all streams interleaved) x one injected fault whose kind (FIN, RESET, STOP_SENDING, close NO_ERROR / error code, timeout, transport internal / undefined error, stream read / write error, none) and step index (0..23) are enumerated systematically over the run index x drawn chunking, task order, spurious polls, both roles, whole and split streams; liveness judged in two stages at exact quiescence (stage 1: peer ends/aborts every stream, grants all credit, connection open -> every stream call completes; stage 2: connection closed -> every future completes); non-trivial = at least 3 script steps executed and >= 2 chunk deliveries; distinct = distinct schedule signatures",
+            rule: "adversarial peer scripts (1-5 unidirectional streams of every type and 1-3 request/response streams built from valid traffic plus grammar mutations - length fields off by +-1/+-k/huge, non-minimal and truncated varints, swapped types, QPACK-level mutations: dynamic references, out-of-range indices, truncated and over-long integers, bad Huffman padding, malformed messages, one run in two hundred a field section with 3 000 to 50 000 one-byte field lines - and byte mutations; steps of all streams interleaved) x one injected fault whose kind (FIN, RESET, STOP_SENDING, close NO_ERROR / error code, timeout, transport internal / undefined error, stream read / write error, none) and step index (0..23) are enumerated systematically over the run index x drawn chunking, task order, spurious polls, both roles, whole and split streams; liveness judged in two stages at exact quiescence (stage 1: peer ends/aborts every stream, grants all credit, connection open -> every stream call completes; stage 2: connection closed -> every future completes); non-trivial = at least 3 script steps executed and >= 2 chunk deliveries; distinct = distinct schedule signatures",
             real: &["all of h3 (client, server, connection, frame, stream, buf, proto, qpack)"],
             stub: &["QUIC transport (SimQuic)", "executor (simexec)", "peer (adversarial script)", "applications (documented call patterns, drawn behaviour after an error)"],
             assumptions: &["transport contract: non-empty chunks, valid stream ids", "which error is returned is not judged here (C02-C04, C07)"],
